@@ -180,6 +180,12 @@ func c10FieldsLarge(w *mon.W, idx int) {
 			if _, ok := c10CheckFields(w, h, l-1, pf>>1); !ok {
 				return
 			}
+			// ... and the root twice in a row right after a non-root node
+			for k := 0; k < 2; k++ {
+				if _, ok := c10CheckFields(w, h, 0, 0); !ok {
+					return
+				}
+			}
 			w.Bucket("field/relatives-in-consecutive-calls")
 		}
 		if l < h {
